@@ -55,7 +55,7 @@ Qed.
 
 Lemma otto_int64_sat : forall v, otto_int64 v = option_map xsat (to_integer v).
 Proof.
-  intro v. unfold otto_int64. destruct v as [ | | b | z | bits | s | gi gp]; cbn [otto_number to_integer option_map snd xsat]; try reflexivity.
+  intro v. unfold otto_int64. destruct v as [ | | b | z | bits | s | gi gp gf gj gn]; cbn [otto_number to_integer option_map snd xsat]; try reflexivity.
   - destruct b; reflexivity.
   - f_equal. apply otto_int64_bits_sat.
   - destruct s; [reflexivity |]. destruct (parse_digits (z :: s) 0); reflexivity.
@@ -148,7 +148,7 @@ Qed.
 Theorem array_uint32_agree : forall v, otto_array_uint32 v = valid_length v.
 Proof.
   intro v. unfold otto_array_uint32.
-  destruct v as [ | | b | z | bits | s | gi gp]; cbn [otto_number valid_length]; try reflexivity.
+  destruct v as [ | | b | z | bits | s | gi gp gf gj gn]; cbn [otto_number valid_length]; try reflexivity.
   - destruct b; reflexivity.
   - unfold sat64, two63, min_int64, max_int64, max_index, two32. f_equal. brk; cbn [andb]; try reflexivity; try lia.
   - unfold otto_number_bits. destruct (decode bits) as [ | neg | neg m e] eqn:E; try reflexivity.
